@@ -292,4 +292,21 @@ def stopSequenceOk (t : List Entry) : Bool :=
     && ca.events.any isJoin
   | _, _, _ => false
 
+/-! ## locks are released on every path -/
+
+/-- the table confirms that a wrapper's body is nothing but the lock call, and the name is one of the
+    hand-over functions of the model -/
+def wrapperOk (t : List Entry) (w : String × Lock) : Bool :=
+  isHandOver w.1 &&
+  (match findFn t w.1 with
+   | some en => !en.events.isEmpty && en.events.all (fun e => e.kind == Kind.lock w.2)
+   | none => false)
+
+/-- **every path from a lock to a function exit releases the lock**: no function returns (early
+    return, end of body; through break / continue / goto, counting what its callees leave held)
+    with a mutex that it or a callee took still possibly held — except the lock wrappers, whose
+    callers are subject to the same rule (the wrapper's summary leaves the mutex held in the caller) -/
+def exitsOk (t : List Entry) (exits : List (String × Lock × Nat × Bool)) (wrappers : List (String × Lock)) : Bool :=
+  exits.all (fun x => wrappers.contains (x.1, x.2.1)) && wrappers.all (wrapperOk t)
+
 end Mhd.Locks
